@@ -158,10 +158,13 @@ def handledOf : Ev → Option Notif
 private theorem classify_notif (reqId : Nat) (n : Notif) : classify reqId (notifJson n) = .notif (delivered n) := by
   simp [classify, asResponse, notifJson, decodeNotif, strField, lookup, jsonrpcField, marshal, unmarshal, delivered, onWire]
 
-private theorem classify_answer (reqId : Nat) (hid : reqId < 1000000) (a : Answer) :
+/-- regenerated fact, decided: the POST-SSE matcher compares `requestIDKey` renderings (D01 repaired) -/
+theorem C10_fact_id_key : idKeyToday = true := by decide
+
+private theorem classify_answer (reqId : Nat) (a : Answer) :
     classify reqId (answerJson reqId a) = .response (some (answerRaw reqId a)) := by
   cases a <;>
-    simp [classify, asResponse, answerJson, lookup, jsonrpcField, fmtVMatches, hid, responseOf, hasKey, answerRaw]
+    simp [classify, asResponse, answerJson, lookup, jsonrpcField, fmtVMatches, idMatchesK, C10_fact_id_key, responseOf, hasKey, answerRaw]
 
 private def feed (f : Facts) (hs : List Text) (st : RS) (ns : List Notif) : RS :=
   ns.foldl (fun s n => dispatch f hs s (delivered n)) st
@@ -199,13 +202,13 @@ private theorem readLoop_tail (f : Facts) (hs : List Text) (reqId : Nat) (ns : L
     · rw [dispatch_keeps_result]; exact hr
 
 /-- the loop on a server-made stream, whatever the facts -/
-private theorem readLoop_frames (f : Facts) (hs : List Text) (reqId : Nat) (hid : reqId < 1000000)
+private theorem readLoop_frames (f : Facts) (hs : List Text) (reqId : Nat)
     (ns : List Notif) (a : Answer) (st : RS) :
     readLoop f hs reqId (ns.map notifJson ++ [answerJson reqId a]) st
       = finish (feed f hs st ns) (.ret (answerRaw reqId a)) := by
   induction ns generalizing st with
   | nil =>
-    simp only [List.map_nil, List.nil_append, readLoop, classify_answer reqId hid, feed, List.foldl_nil]
+    simp only [List.map_nil, List.nil_append, readLoop, classify_answer reqId, feed, List.foldl_nil]
     split <;> rfl
   | cons n rest ih =>
     simp only [List.map_cons, List.cons_append, readLoop, classify_notif]
@@ -243,22 +246,20 @@ private theorem serverFrames_eq (reqId : Nat) (es : List Emit) (a : Answer) :
     invocation per emitted notification whose method has a handler — in emission order, each once, with the params as
     `onWire` gives them (`C10_custom_delivery`) — and then the return with the answer. For all numbers and kinds of
     notifications, all payloads, all handler registrations. -/
-theorem C10_order_once (f : Facts) (hsync : f.syncDispatch = true) (hs : List Text) (reqId : Nat)
-    (hid : reqId < 1000000) (es : List Emit) (a : Answer) :
+theorem C10_order_once (f : Facts) (hsync : f.syncDispatch = true) (hs : List Text) (reqId : Nat) (es : List Emit) (a : Answer) :
     call f true hs reqId es a
       = ((es.map Emit.notif).filter (fun n => hs.contains n.method)).map (fun n => Ev.handled (delivered n))
         ++ [.ret (answerRaw reqId a)] := by
   simp only [call, if_true, serverFrames_eq]
-  rw [readLoop_frames f hs reqId hid, feed_sync f hsync]
+  rw [readLoop_frames f hs reqId, feed_sync f hsync]
   simp [finish, RS.init]
 
 /-- each handler, seen on its own: the handler of method `m` saw exactly the emitted notifications of method `m`,
     in emission order -/
-theorem C10_per_handler (f : Facts) (hsync : f.syncDispatch = true) (hs : List Text) (reqId : Nat)
-    (hid : reqId < 1000000) (es : List Emit) (a : Answer) (m : Text) (hm : hs.contains m = true) :
+theorem C10_per_handler (f : Facts) (hsync : f.syncDispatch = true) (hs : List Text) (reqId : Nat) (es : List Emit) (a : Answer) (m : Text) (hm : hs.contains m = true) :
     ((call f true hs reqId es a).filterMap handledOf).filter (fun n => n.method == m)
       = ((es.map Emit.notif).filter (fun n => n.method == m)).map delivered := by
-  rw [C10_order_once f hsync hs reqId hid]
+  rw [C10_order_once f hsync hs reqId]
   simp only [List.filterMap_append, List.filterMap_map, Function.comp_def, handledOf, List.filterMap_cons,
     List.filterMap_nil, List.append_nil]
   generalize es.map Emit.notif = ns
@@ -278,10 +279,9 @@ theorem C10_per_handler (f : Facts) (hsync : f.syncDispatch = true) (hs : List T
         simpa using ih
 
 /-- **before the result**: the trace is handler invocations only, then the return — nothing is handled afterwards -/
-theorem C10_before_result (f : Facts) (hsync : f.syncDispatch = true) (hs : List Text) (reqId : Nat)
-    (hid : reqId < 1000000) (es : List Emit) (a : Answer) :
+theorem C10_before_result (f : Facts) (hsync : f.syncDispatch = true) (hs : List Text) (reqId : Nat) (es : List Emit) (a : Answer) :
     ∃ pre r, call f true hs reqId es a = pre ++ [.ret r] ∧ ∀ e ∈ pre, ∃ n, e = .handled n := by
-  refine ⟨_, _, C10_order_once f hsync hs reqId hid es a, ?_⟩
+  refine ⟨_, _, C10_order_once f hsync hs reqId es a, ?_⟩
   intro e he
   simp only [List.mem_map] at he
   obtain ⟨n, _, rfl⟩ := he
@@ -289,19 +289,18 @@ theorem C10_before_result (f : Facts) (hsync : f.syncDispatch = true) (hs : List
 
 /-- **the result still arrives, unchanged**: the call returns once, and what it returns is the handler's answer — in
     both response modes, for any number of notifications before it -/
-theorem C10_result_intact (f : Facts) (hsync : f.syncDispatch = true) (sse : Bool) (hs : List Text) (reqId : Nat)
-    (hid : reqId < 1000000) (es : List Emit) (a : Answer) (r : Json) :
+theorem C10_result_intact (f : Facts) (hsync : f.syncDispatch = true) (sse : Bool) (hs : List Text) (reqId : Nat) (es : List Emit) (a : Answer) (r : Json) :
     Ev.ret r ∈ call f sse hs reqId es a ↔ r = answerRaw reqId a := by
   cases sse with
   | true =>
-    rw [C10_order_once f hsync hs reqId hid]
+    rw [C10_order_once f hsync hs reqId]
     simp
   | false =>
     cases a <;> simp [call, readJsonBody, answerJson, hasKey, lookup, jsonrpcField, answerRaw]
 
 /-- **dropped without harm**: in JSON response mode (no-op sender), and over SSE when no handler is registered for any
     emitted method, the call is just the return of the unchanged answer — whatever the facts -/
-theorem C10_dropped_harmless (f : Facts) (hs : List Text) (reqId : Nat) (hid : reqId < 1000000)
+theorem C10_dropped_harmless (f : Facts) (hs : List Text) (reqId : Nat)
     (es : List Emit) (a : Answer) :
     call f false hs reqId es a = [.ret (answerRaw reqId a)] ∧
     ((∀ e ∈ es, hs.contains e.notif.method = false) → call f true hs reqId es a = [.ret (answerRaw reqId a)]) := by
@@ -309,7 +308,7 @@ theorem C10_dropped_harmless (f : Facts) (hs : List Text) (reqId : Nat) (hid : r
   · cases a <;> simp [call, readJsonBody, answerJson, hasKey, lookup, jsonrpcField, answerRaw]
   · intro h
     simp only [call, if_true, serverFrames_eq]
-    rw [readLoop_frames f hs reqId hid, feed_none]
+    rw [readLoop_frames f hs reqId, feed_none]
     · simp [finish, RS.init]
     · intro n hn
       simp only [List.mem_map] at hn
@@ -319,7 +318,7 @@ theorem C10_dropped_harmless (f : Facts) (hs : List Text) (reqId : Nat) (hid : r
 /-- frames after the answer (not produced by this server, but legal on a stream): with handlers registered the loop
     reads on and still delivers them before it returns -/
 theorem C10_late_notifications_delivered (f : Facts) (hsync : f.syncDispatch = true) (hdrain : f.drainWithHandlers = true)
-    (hs : List Text) (hne : hs ≠ []) (reqId : Nat) (hid : reqId < 1000000) (pre post : List Notif) (a : Answer) :
+    (hs : List Text) (hne : hs ≠ []) (reqId : Nat) (pre post : List Notif) (a : Answer) :
     readLoop f hs reqId (pre.map notifJson ++ answerJson reqId a :: post.map notifJson) RS.init
       = (((pre ++ post).filter (fun n => hs.contains n.method)).map (fun n => Ev.handled (delivered n)))
         ++ [.ret (answerRaw reqId a)] := by
@@ -329,7 +328,7 @@ theorem C10_late_notifications_delivered (f : Facts) (hsync : f.syncDispatch = t
     induction pre with
     | nil =>
       intro st
-      simp only [List.map_nil, List.nil_append, readLoop, classify_answer reqId hid, hemp, hdrain, Bool.not_true,
+      simp only [List.map_nil, List.nil_append, readLoop, classify_answer reqId, hemp, hdrain, Bool.not_true,
         Bool.or_self, Bool.false_eq_true, if_false]
       rw [readLoop_tail f hs reqId post _ _ rfl, feed_result, finish_result]
       rfl
@@ -630,14 +629,13 @@ private theorem methods_contains (t : Table) (m : Text) : (methods t).contains m
 /-- **… and that handler gets the call's notifications**: after any registration history a call's events are, for each
     emitted notification whose method has a live registration, one invocation of exactly the lastly registered handler
     instance — in emission order — then the return -/
-theorem C10_history_dispatch (f : Facts) (hsync : f.syncDispatch = true) (ops : List RegOp) (reqId : Nat)
-    (hid : reqId < 1000000) (es : List Emit) (a : Answer) :
+theorem C10_history_dispatch (f : Facts) (hsync : f.syncDispatch = true) (ops : List RegOp) (reqId : Nat) (es : List Emit) (a : Answer) :
     callH f true (tableAfter ops) reqId es a
       = ((es.map Emit.notif).filter (fun n => (lastReg ops.reverse n.method).isSome)).map
           (fun n => (Ev.handled (delivered n), lastReg ops.reverse n.method))
         ++ [(.ret (answerRaw reqId a), none)] := by
   unfold callH
-  rw [C10_order_once f hsync _ reqId hid]
+  rw [C10_order_once f hsync _ reqId]
   simp only [List.map_append, List.map_map, List.map_cons, List.map_nil, ranBy]
   congr 1
   have hfil : (fun n : Notif => (methods (tableAfter ops)).contains n.method)
@@ -689,9 +687,11 @@ example : call ⟨1, true, true⟩ true [t!"m"] 7 [.viaNew t!"m" [(metaKey, .obj
 /-- JSON mode: nothing but the answer -/
 example : call ⟨1, true, true⟩ false [t!"m"] 7 [.custom t!"m" []] (.ok .null) = [.ret .null] := rfl
 
-/-- a request id from 10^6 on is not recognised by the `%v` comparison (defect D01, outside this property): the answer is
-    taken for a notification without handler, the call fails at the end of the stream -/
-example : call ⟨1, true, true⟩ true [] 1000000 [] (.ok .null) = [.failNoResult] := rfl
+/-- a request id from 10^6 on is recognised like any other (since the D01 repair the matcher compares `requestIDKey`
+    renderings; the `%v` comparison it replaced did not: `idMatchesK false`) -/
+example : call ⟨1, true, true⟩ true [] 1000000 [] (.ok .null) = [.ret .null] := rfl
+example : idMatchesK false (.int 1000000) 1000000 = false ∧ idMatchesK true (.int 1000000) 1000000 = true ∧
+    idMatchesK false (.str t!"7") 7 = true ∧ idMatchesK true (.str t!"7") 7 = false := by decide
 
 open Mcp.Escape in
 example : clientDataLines (streamText [(⟨5, 1⟩, notifJson ⟨t!"m", ⟨[], []⟩⟩), (⟨5, 2⟩, answerJson 1 (.ok .null))])
